@@ -78,6 +78,10 @@ where
         try_lock!(self.inner.read()).on_register_dispatch(collector);
     }
 
+    fn on_subscribe(&mut self, collector: &mut C) {
+        try_lock!(self.inner.write(), else return).on_subscribe(collector);
+    }
+
     #[inline]
     fn register_callsite(&self, metadata: &'static Metadata<'static>) -> Interest {
         #[cfg(feature = "verif-hooks")]
